@@ -128,6 +128,8 @@ func genericFor(id string, p *Prog, r *Report) {
 		discardedArithmeticRule(p, r, ms.rule2, ms.mods, 5)
 	}
 	switch id {
+	case "C07":
+		freshOrderIndexedRule(p, r, "R07.9", 2)
 	case "C04":
 		denomLinkRule(p, r, "R04.8", modset("liquidity"), 4)
 		executeOnceRule(p, r, "R04.9", 4)
